@@ -129,6 +129,8 @@ struct Probe(u32);
 #[derive(Debug, Clone, PartialEq, Eq)]
 enum Effect
 {
+    /// written by a custom `SystemBuffer` (`Deferred<MarkBuf>`) of the ordinary system when its deferred work is applied
+    Buffered(F, u32, u32),
     Marker(F, u32, u32),
     QueuedResult(Result<Out, ()>),
     Unit(u32, u32),
@@ -154,6 +156,7 @@ struct ExpOut
 #[derive(Debug, Clone, PartialEq, Eq)]
 enum ExpEffect
 {
+    Buffered(F, u32, Option<u32>),
     Marker(F, u32, Option<u32>),
     QueuedResult(Result<ExpOut, ()>),
     Unit(u32, u32),
@@ -180,6 +183,7 @@ fn effect_matches(got: &Effect, want: &ExpEffect) -> bool
 {
     match (got, want)
     {
+        (Effect::Buffered(f, x, c), ExpEffect::Buffered(f2, x2, c2)) => f == f2 && x == x2 && c2.map(|w| w == *c).unwrap_or(true),
         (Effect::Marker(f, x, c), ExpEffect::Marker(f2, x2, c2)) => f == f2 && x == x2 && c2.map(|w| w == *c).unwrap_or(true),
         (Effect::QueuedResult(r), ExpEffect::QueuedResult(w)) => out_matches(r, w),
         (Effect::Unit(a, b), ExpEffect::Unit(c, d)) => a == c && b == d,
@@ -285,12 +289,25 @@ fn sys_b(In(plan): In<CallSpec>, world: &mut World, mut local: Local<u32>) -> Ou
 }
 
 /// A normal (non-exclusive) system: it can only queue.
-fn sys_n(In(plan): In<CallSpec>, mut c: Commands, mut local: Local<u32>, probe: Res<Probe>, marks: Query<&QMark>) -> Out
+/// A user-defined deferred buffer: not `Commands`, so only `System::apply_deferred` ever applies it.
+#[derive(Default)]
+struct MarkBuf(Vec<(F, u32, u32)>);
+
+impl bevy::ecs::system::SystemBuffer for MarkBuf
+{
+    fn apply(&mut self, _meta: &bevy::ecs::system::SystemMeta, _world: &mut World)
+    {
+        for (f, x, c) in self.0.drain(..) { effect(Effect::Buffered(f, x, c)); }
+    }
+}
+
+fn sys_n(In(plan): In<CallSpec>, mut buf: Deferred<MarkBuf>, mut c: Commands, mut local: Local<u32>, probe: Res<Probe>, marks: Query<&QMark>) -> Out
 {
     let changed = Some(probe.is_changed());
     *local += 1;
     let count = *local;
     let x = plan.x;
+    buf.0.push((F::N, x, count));
     c.queue(move |_w: &mut World| effect(Effect::Marker(F::N, x, count)));
     if let Some(k) = plan.kill { c.queue(move |w: &mut World| kill_slot(w, k)); }
     for q in plan.queued.iter().cloned()
@@ -398,6 +415,7 @@ impl Model
             self.hit("C17:syscall_once");
             let nested: Vec<Result<ExpOut, ()>> = if f == F::N || f == F::P { Vec::new() } else { spec.nested.iter().map(|n| self.call(n, depth + 1)).collect() };
             if let Some(k) = spec.kill { if !self.slots.is_empty() { let i = k as usize % self.slots.len(); self.slots[i].1 = false; } }
+            if f == F::N { self.effects.push(ExpEffect::Buffered(f, spec.x, Some(1))); }
             self.effects.push(ExpEffect::Marker(f, spec.x, Some(1)));
             for q in spec.queued.iter()
             {
@@ -453,6 +471,8 @@ impl Model
             if !self.slots.is_empty() { let i = k as usize % self.slots.len(); self.slots[i].1 = false; self.hit("C17:spawned_system_despawned_during_a_call"); }
         }
         // the body's commands: marker first, then the queued calls in order
+        // the ordinary system's own deferred buffer comes first in its parameter list, so it is applied first
+        if f == F::N { self.effects.push(ExpEffect::Buffered(f, spec.x, count)); }
         self.effects.push(ExpEffect::Marker(f, spec.x, count));
         for q in spec.queued.iter()
         {
